@@ -2,6 +2,7 @@ package checks
 
 import (
 	"fmt"
+	"path/filepath"
 	"sort"
 	"strings"
 	"sync"
@@ -14,13 +15,13 @@ import (
 // workspace of a bounded family, plus "edit f => executed ⊆ owners(f) ∪ rdeps*".
 
 type qnode struct {
-	label   string
-	pkg     string
-	name    string
-	alias   bool
-	deps    []int // indices (for an alias: exactly one)
-	inputs  []string
-	isTest  bool
+	label  string
+	pkg    string
+	name   string
+	alias  bool
+	deps   []int // indices (for an alias: exactly one)
+	inputs []string
+	isTest bool
 }
 
 func queryLines(out string) []string {
@@ -68,9 +69,9 @@ func c20Workspaces(thorough bool) [][]qnode {
 	// optional alias al in package b pointing at one of t0..t2, usable as a dependency of higher targets.
 	var out [][]qnode
 	base := []qnode{
-		{pkg: "a", name: "t0", inputs: []string{"t0.in", "shared.in"}},
+		{pkg: "a", name: "t0", inputs: []string{"./t0.in", "shared.in"}}, // a literal input spelled non-canonically
 		{pkg: "a", name: "t1", inputs: []string{"t1.in", "shared.in"}},
-		{pkg: "b", name: "t2", inputs: []string{"t2.in", "sub/*.txt"}},
+		{pkg: "b", name: "t2", inputs: []string{"sub/../t2.in", "sub/*.txt"}},
 		{pkg: "b", name: "e2e_test", inputs: []string{"t3.in"}, isTest: true},
 	}
 	pairs := [][2]int{{0, 1}, {0, 2}, {0, 3}, {1, 2}, {1, 3}, {2, 3}} // dep -> dependant (lower -> higher)
@@ -134,7 +135,7 @@ func c20Source(ns []qnode) *hist.Source {
 				s.Files[n.pkg+"/sub/g1.txt"] = hist.File{Content: "g1"}
 				s.Files[n.pkg+"/sub/g2.txt"] = hist.File{Content: "g2"}
 			} else {
-				s.Files[n.pkg+"/"+in] = hist.File{Content: in}
+				s.Files[filepath.Clean(n.pkg+"/"+in)] = hist.File{Content: in}
 			}
 		}
 	}
@@ -318,7 +319,7 @@ func c20Workspace(c *Ctx, grog, base string, wi int, ns []qnode) int64 {
 			continue
 		}
 		for _, in := range nd.inputs {
-			ps := []string{nd.pkg + "/" + in}
+			ps := []string{filepath.Clean(nd.pkg + "/" + in)}
 			if strings.Contains(in, "*") {
 				ps = []string{nd.pkg + "/sub/g1.txt", nd.pkg + "/sub/g2.txt"}
 			}
